@@ -86,7 +86,7 @@ def classify(fc, variant, field, mode):
 def run(ctx):
     import bionumpy as bnp
     rng = ctx.rng
-    n_cases = ctx.share(ctx.pick(30 * len(VARIANTS), 1200 * len(VARIANTS)))
+    n_cases = ctx.share(ctx.pick(90 * len(VARIANTS), 1500 * len(VARIANTS)))
     max_n = ctx.pick(6, 40)
     order = [VARIANTS[i % len(VARIANTS)] for i in range(n_cases)]
     rng.shuffle(order)
